@@ -852,6 +852,7 @@ def check_C14(res):
             res.violation('nondeterministic', '%s: the encoder reads a member without initialiser (model tables)' % n, {'class': n, 'failure': 'nondeterministic-encoding'})
         if not t['arraysInit']:
             res.violation('nondeterministic', '%s: array member without initialiser (model tables)' % n, {'class': n, 'failure': 'indeterminate-array'})
+    file_determinism(res, pipe, summary, rng)
     # correspondence of the model itself: model encodings equal the implementation's for determined classes
     reqs = ['enc %s %s' % (n, ' '.join('%d=%s' % (i, b.hex()) for i, b in sorted(a.items()))) for n, a in base]
     mod, rc, err = lib.session(drv, reqs)
@@ -863,6 +864,78 @@ def check_C14(res):
         for d in dis[:20]:
             res.violation('model-vs-implementation', 'codec correspondence: ' + '; '.join(d['why']), d)
     finish_codec(res)
+
+
+def file_determinism(res, pipe, summary, rng):
+    """file level: sequences of objects with alignment padding / union filler (odd payload lengths) in tiny containers,
+    written by the real File natively, in processes with different heap fill patterns, and under seeded random and PCT
+    schedules of the controlled scheduler: every run must produce the same bytes, and the containers' payload must be the
+    concatenation of the (zero-padded) encodings of the objects"""
+    import filechecks as fc
+    import blfparse
+    fexe, cexe = fc.build_file_harness(pipe, res)
+    sexe = build_sched_harness(pipe, res)
+    if not fexe or not cexe or not sexe:
+        return
+    g = codecgen_mod().ObjGen(summary, rng)
+    padded = [c['name'] for c in summary['classes'] if c.get('layout') and any(it[0] == 'pad' for it in c['layout']['items'])
+              and c['name'] in creatable(summary)]
+    extra = [n for n in ('SerialEvent', 'EnvironmentVariable') if n in g.cls and n in creatable(summary)]
+    cases = []
+    for k in range(4 if res.tier == 'quick' else 24):
+        objs = []
+        for cn in rng.sample(padded, min(len(padded), 5)) + extra[:1]:
+            for ln in (1, 2, 3, 5):
+                a = fc.api_object(g, summary, cn, rng)
+                for i, f in enumerate(g.cls[cn]['fields']):
+                    if f['kind'][0] == 'vec' and f['kind'][1] == 1 and i in a:
+                        a[i] = bytes(rng.randrange(1, 256) for _ in range(ln + 4 * rng.randrange(0, 3)))
+                objs.append((cn, a))
+        rng.shuffle(objs)
+        cases.append(fc.Case(rng.choice([0, 1]), rng.choice([16, 33, 64]), k % 2 == 0, objs))
+    out = fc.run_cases(pipe, res, cases, fexe, cexe, want_model=False)
+    if out is None:
+        return
+    env = fc.fenv()
+    reqs, owner = [], []
+    for ci, (c, o) in enumerate(zip(cases, out)):
+        for pol in ['policy=nonpreempt'] + ['policy=%s seed=%d' % (p, lib.seed() * 10 + s) for p in ('random', 'pct') for s in range(5 if res.tier == 'quick' else 40)]:
+            reqs.append('wsess level=%d cs=%d rp=%d close=-1 %s %s' % (c.level, c.cs, 1 if c.rp else 0, pol, c.tail())); owner.append(ci)
+    ans, rc, err = lib.psession(sexe, reqs, env=env, timeout=3600)
+    if len(ans) != len(reqs):
+        res.oblige('D:sched-session', False, '%d answers for %d requests %s' % (len(ans), len(reqs), err[-300:]))
+        return
+    # natively, with different heap fill patterns
+    nat = {}
+    for fill in ('0', '170', '255'):
+        e2 = dict(env); e2['ASAN_OPTIONS'] = e2.get('ASAN_OPTIONS', 'detect_leaks=0') + ':malloc_fill_byte=%s:max_malloc_fill_size=4194304' % fill
+        w, rc, err = lib.psession(fexe, ['writefile %s %s' % (c.opts(), c.tail()) for c in cases], env=e2, timeout=1800)
+        for ci, a in enumerate(w):
+            nat.setdefault(ci, set()).add(a.split('out=')[1] if a.startswith('writefile out=') else a[:80])
+    bad = {}
+    for ci, (c, o) in enumerate(zip(cases, out)):
+        files = set(nat.get(ci, set()))
+        for rq, a, oc in zip(reqs, ans, owner):
+            if oc == ci:
+                res.corr['requests'] += 1
+                files.add(a.split('file=')[1].split()[0] if 'outcome=done' in a and 'file=' in a else a[:80])
+        if o['file'] is not None:
+            files.add(o['file'].hex())
+        if len(files) > 1:
+            bad.setdefault('file-bytes-depend-on-schedule-or-heap', (c, '%d different results' % len(files)))
+        for fh in files:
+            try:
+                hdr, conts = blfparse.parse_file(bytes.fromhex(fh))
+            except (blfparse.FormatError, ValueError) as e:
+                bad.setdefault('file-not-well-formed', (c, str(e)[:100])); continue
+            payload = b''.join(k['payload'] for k in conts)
+            if payload != o['stream']:
+                k = next((i for i in range(min(len(payload), len(o['stream']))) if payload[i] != o['stream'][i]), min(len(payload), len(o['stream'])))
+                bad.setdefault('padding-or-filler-not-as-encoded', (c, 'stream differs from the zero-padded encodings at offset %d of %d' % (k, len(o['stream']))))
+    res.corr['file_level_cases'] = len(cases)
+    res.corr['file_level_runs'] = len(reqs) + 3 * len(cases)
+    for kind, (c, det) in bad.items():
+        res.violation('nondeterministic', '%s (%s)' % (kind, det), {'class': 'File', 'failure': kind, 'config': c.opts(), 'objects': c.tail()[:3000]})
 
 
 # ================================================================================================ monitors
